@@ -153,6 +153,7 @@ def build_reference(root: str) -> Dict:
     t = Tree()
     out = inventory(t)
     out["::writes"] = write_inventory(t)
+    out["::defs"] = defs_inventory(t)
     return out
 
 
@@ -453,4 +454,59 @@ def rule_STALE(tree: Tree, scope: Optional[List[Tuple[str, Optional[str]]]] = No
                                                 f"{[w for _, w in stale][:1]} keep changing afterwards: the cached value goes stale", f.module.line(st)))
     if n_loops < (40 if scope is None else 1):
         raise AnalysisError(f"STALE: only {n_loops} loops analysed")
+    return r
+
+
+# ------------------------------------------------------------------ LDI: local definition inventory
+def _local_defs(f: Func) -> Dict[str, int]:
+    out: Dict[str, int] = {p: 0 for p in f.params if p not in ("self", "cls")}  # a parameter that gets re-bound counts as an additional definition
+
+    def add(t: ast.AST):
+        for x in ast.walk(t):
+            if isinstance(x, ast.Name) and isinstance(x.ctx, ast.Store):
+                out[x.id] = out.get(x.id, 0) + 1
+    for n in body_walk(f.node):
+        if isinstance(n, ast.Assign):
+            for t in n.targets:
+                if isinstance(t, (ast.Name, ast.Tuple, ast.List)):
+                    add(t)
+        elif isinstance(n, (ast.AugAssign, ast.AnnAssign)):
+            if isinstance(n.target, ast.Name) and not (isinstance(n, ast.AnnAssign) and n.value is None):
+                add(n.target)
+        elif isinstance(n, (ast.For, ast.comprehension)):
+            add(n.target)
+        elif isinstance(n, ast.withitem) and n.optional_vars is not None:
+            add(n.optional_vars)
+        elif isinstance(n, ast.NamedExpr):
+            add(n.target)
+    return out
+
+
+def defs_inventory(tree: Tree) -> Dict[str, Dict[str, int]]:
+    return {f"{f.module.relpath}::{f.qualname}": _local_defs(f) for f in tree.all_funcs() if f.module.short not in SKIP_MODULES}
+
+
+def rule_LDI(tree: Tree, scope: Optional[List[Tuple[str, Optional[str]]]] = None) -> RuleResult:
+    import re
+    r = RuleResult("LDI", "local definition inventory: no local of the reference tree is assigned at an additional place — a value is not transformed by an inserted "
+                          "re-definition between where it is computed and where it is used")
+    ref = _ref().get("::defs")
+    if ref is None:
+        raise AnalysisError("vt/ref_guards.json has no definition inventory (regenerate with `python3 -m vt.canon /repo`)")
+    cur = defs_inventory(tree)
+    n = 0
+    for fkey, defs in sorted(cur.items()):
+        if fkey not in ref:
+            continue
+        relpath, qn = fkey.split("::", 1)
+        if scope is not None and not any(f == relpath and (rx is None or re.fullmatch(rx, qn.split(".")[-1])) for f, rx in scope):
+            continue
+        n += 1
+        r.instances += 1
+        more = sorted(v for v, k in defs.items() if v in ref[fkey] and k > ref[fkey][v])
+        r.ob(not more, Finding("LDI", f"{fkey}:redefined:{','.join(more)}",
+                               f"{qn}: local{'s' if len(more) != 1 else ''} {more} {'are' if len(more) != 1 else 'is'} assigned at more places than in the reference tree: an inserted "
+                               f"re-definition changes the value that the following statements (state updates, returns, output) work with", relpath))
+    if n < (100 if scope is None else 1):
+        raise AnalysisError(f"LDI: only {n} functions matched the reference definition inventory")
     return r
